@@ -335,10 +335,23 @@ func (rw *rewriter) apply(n ast.Node) ast.Node {
 		if s, ok := v.Stmt.(*ast.SelectStmt); ok {
 			return rw.selectStmt(s, v.Label)
 		}
+		if rs, ok := v.Stmt.(*ast.RangeStmt); ok {
+			if tv, ok := rw.info.Types[rs.X]; ok {
+				if _, isMap := tv.Type.Underlying().(*types.Map); isMap {
+					blk := rw.rangeMap(rs).(*ast.BlockStmt)
+					last := len(blk.List) - 1
+					blk.List[last] = &ast.LabeledStmt{Label: v.Label, Stmt: blk.List[last]}
+					return blk
+				}
+			}
+		}
 	case *ast.RangeStmt:
 		if tv, ok := rw.info.Types[v.X]; ok {
 			if _, isChan := tv.Type.Underlying().(*types.Chan); isChan {
 				return rw.rangeChan(v)
+			}
+			if _, isMap := tv.Type.Underlying().(*types.Map); isMap {
+				return rw.rangeMap(v)
 			}
 		} else {
 			fatalf("%s: no type information for range operand", rw.pos(v))
@@ -387,6 +400,14 @@ func (rw *rewriter) apply(n ast.Node) ast.Node {
 						rw.usedSeams[parts[0]] = true
 						return &ast.SelectorExpr{X: ast.NewIdent(parts[0]), Sel: ast.NewIdent(parts[1])}
 					}
+				}
+			}
+		}
+	case *ast.IndexExpr:
+		if tv, ok := rw.info.Types[v.X]; ok && tv.IsValue() {
+			if mt, isMap := tv.Type.Underlying().(*types.Map); isMap {
+				if _, basic := mt.Key().Underlying().(*types.Basic); !basic {
+					v.Index = rw.mcrt("Key", v.Index)
 				}
 			}
 		}
@@ -512,6 +533,42 @@ func (rw *rewriter) rangeChan(r *ast.RangeStmt) ast.Node {
 	body := rw.apply(r.Body).(*ast.BlockStmt)
 	list := append(append(pre, recv, brk), body.List...)
 	return &ast.ForStmt{Body: &ast.BlockStmt{List: list}}
+}
+
+// rangeMap makes iteration over a map deterministic: keys in mcrt.MapKeys order, entries deleted meanwhile skipped
+// (Go's semantics), entries added meanwhile not visited (permitted by Go's semantics).
+func (rw *rewriter) rangeMap(r *ast.RangeStmt) ast.Node {
+	m := rw.tmp("m")
+	k := rw.tmp("k")
+	pre := &ast.AssignStmt{Lhs: []ast.Expr{m}, Tok: token.DEFINE, Rhs: []ast.Expr{rw.apply(r.X).(ast.Expr)}}
+	var head []ast.Stmt
+	ok := rw.tmp("ok")
+	var vLhs ast.Expr = ast.NewIdent("_")
+	if r.Value != nil {
+		vLhs = r.Value
+	}
+	isBlank := func(e ast.Expr) bool { id, ok := e.(*ast.Ident); return ok && id.Name == "_" }
+	tok := r.Tok
+	if r.Key == nil {
+		tok = token.DEFINE
+	}
+	// v, ok := m[k]  (or assignment form when the loop assigns to existing variables)
+	if tok == token.DEFINE {
+		head = append(head, &ast.AssignStmt{Lhs: []ast.Expr{vLhs, ok}, Tok: token.DEFINE, Rhs: []ast.Expr{&ast.IndexExpr{X: m, Index: k}}})
+		if r.Key != nil && !isBlank(r.Key) {
+			head = append(head, &ast.AssignStmt{Lhs: []ast.Expr{r.Key}, Tok: token.DEFINE, Rhs: []ast.Expr{k}})
+		}
+	} else {
+		head = append(head, &ast.DeclStmt{Decl: &ast.GenDecl{Tok: token.VAR, Specs: []ast.Spec{&ast.ValueSpec{Names: []*ast.Ident{ok}, Type: ast.NewIdent("bool")}}}})
+		head = append(head, &ast.AssignStmt{Lhs: []ast.Expr{vLhs, ok}, Tok: token.ASSIGN, Rhs: []ast.Expr{&ast.IndexExpr{X: m, Index: k}}})
+		if r.Key != nil && !isBlank(r.Key) {
+			head = append(head, &ast.AssignStmt{Lhs: []ast.Expr{r.Key}, Tok: token.ASSIGN, Rhs: []ast.Expr{k}})
+		}
+	}
+	head = append(head, &ast.IfStmt{Cond: &ast.UnaryExpr{Op: token.NOT, X: ok}, Body: &ast.BlockStmt{List: []ast.Stmt{&ast.BranchStmt{Tok: token.CONTINUE}}}})
+	body := rw.apply(r.Body).(*ast.BlockStmt)
+	loop := &ast.RangeStmt{Key: ast.NewIdent("_"), Value: k, Tok: token.DEFINE, X: rw.mcrt("MapKeys", m), Body: &ast.BlockStmt{List: append(head, body.List...)}}
+	return &ast.BlockStmt{List: []ast.Stmt{pre, loop}}
 }
 
 func (rw *rewriter) selectStmt(s *ast.SelectStmt, label *ast.Ident) ast.Node {
